@@ -71,11 +71,33 @@ def _split_keep(text, term):
     return lines_no, lines_with
 
 
+_ref_cache = {}
+
+
+def _reference(i):
+    """Expected tree, metadata, triples and top of corpus entry i from the reference lexer, grammar and
+    interpretation (not from penman: a defect shared by all containers must not cancel out)."""
+    if i not in _ref_cache:
+        from pmc.ref import grammar as RG, lexer as RL, interp as RI
+        from pmc.ref.roles import RefModel
+        r = RG.parse_one(RL.lex(CORPUS[i]))
+        assert r[0] == 'ok', CORPUS[i]
+        it = RI.interpret(r[1], RefModel())
+        _ref_cache[i] = (r[1], r[2], it['triples'], it['top'])
+    return _ref_cache[i]
+
+
 def check(case, ctx):
     import penman
     originals = [penman.decode(CORPUS[i]) for i in case['seq']]
     want = [_sig(g) for g in originals]
     want_trees = [(penman.parse(CORPUS[i]).node, dict(penman.parse(CORPUS[i]).metadata)) for i in case['seq']]
+    for i, w, wt in zip(case['seq'], want, want_trees):
+        node, md, triples, top = _reference(i)
+        if wt[0] != node or wt[1] != md or w[0] != triples or w[1] != top or w[3] != md:
+            ctx.fail('decoding a corpus graph on its own differs from the reference reading (tree, metadata, triples, top)',
+                     expected=[node, md, triples, top], observed=[wt[0], wt[1], w[0], w[1], w[3]])
+            return
     indent = case['indent']
     ser = case['ser']
     d = tempfile.mkdtemp(prefix='pmc_c09_')
